@@ -243,6 +243,8 @@ func runC10(c *mon.Ctx) {
 				}
 				sets = append(sets, iset{fmt.Sprintf("rand%d", k), ix})
 			}
+			// the empty request (StoredHashes asks for nothing at every even record number)
+			sets = append(sets, iset{"empty", nil})
 			// the sets the tlog algorithms themselves ask for
 			capture := func(name string, f func(hr tlog.HashReader) error) {
 				var got []int64
@@ -407,7 +409,7 @@ func runC10(c *mon.Ctx) {
 					}
 				}
 				// self-consistent forgery of one record through the k lowest tile levels
-				if set.idx[0] < int64(len(stored)) {
+				if len(set.idx) > 0 && set.idx[0] < int64(len(stored)) {
 					lvl, off := tlog.SplitStoredHashIndex(set.idx[0])
 					rec := int(off << uint(lvl))
 					if rec < n {
@@ -484,6 +486,24 @@ func runC10(c *mon.Ctx) {
 	c10Huge(c)
 }
 
+// lockedTiles serialises a tile source that several goroutines use through one reader.
+type lockedTiles struct {
+	mu    sync.Mutex
+	inner *tileSrv
+}
+
+func (l *lockedTiles) Height() int { return l.inner.Height() }
+func (l *lockedTiles) ReadTiles(t []tlog.Tile) ([][]byte, error) {
+	l.mu.Lock()
+	defer l.mu.Unlock()
+	return l.inner.ReadTiles(t)
+}
+func (l *lockedTiles) SaveTiles(t []tlog.Tile, d [][]byte) {
+	l.mu.Lock()
+	defer l.mu.Unlock()
+	l.inner.SaveTiles(t, d)
+}
+
 // c10Concurrent: honest reads through tiles from eight goroutines at once, each with its own reader and
 // tile source over the same reference log, at several heights side by side. Every read must succeed and
 // return the true hashes, and only true tiles may be saved (package-level scratch state in the tile code
@@ -520,6 +540,17 @@ func c10Concurrent(c *mon.Ctx, ref *refmerkle.Log, maxN int) {
 				jobs[g].idx = append(jobs[g].idx, set)
 			}
 		}
+		// every other round the goroutines share ONE reader (and one tile source, then behind a lock)
+		var sharedHR tlog.HashReader
+		var sharedSrv *tileSrv
+		if k%2 == 1 {
+			for g := range jobs {
+				jobs[g].h = jobs[0].h
+			}
+			sharedSrv = &tileSrv{h: jobs[0].h, n: n, ref: ref}
+			sharedHR = tlog.TileHashReader(tree, &lockedTiles{inner: sharedSrv})
+			c.Class("concurrent:one-shared-reader")
+		}
 		var wg sync.WaitGroup
 		bad := make([]string, G)
 		for g := 0; g < G; g++ {
@@ -533,6 +564,9 @@ func c10Concurrent(c *mon.Ctx, ref *refmerkle.Log, maxN int) {
 				}()
 				srv := &tileSrv{h: jobs[g].h, n: n, ref: ref}
 				hr := tlog.TileHashReader(tree, srv)
+				if sharedHR != nil {
+					hr, srv = sharedHR, &tileSrv{}
+				}
 				for _, set := range jobs[g].idx {
 					got, err := hr.ReadHashes(set)
 					if err != nil {
@@ -552,6 +586,9 @@ func c10Concurrent(c *mon.Ctx, ref *refmerkle.Log, maxN int) {
 			}(g)
 		}
 		wg.Wait()
+		if sharedSrv != nil && len(sharedSrv.savedBad) > 0 {
+			bad[0] = fmt.Sprintf("untrue tiles saved through the shared reader: %v", sharedSrv.savedBad)
+		}
 		c.Eval(G * 6)
 		for g := range bad {
 			if bad[g] != "" {
